@@ -17,6 +17,13 @@
 #include <urcu/assert.h>
 #include <urcu/compiler.h>
 #include <urcu/uatomic.h>
+#ifdef URCU_VERIF
+#include <urcu/verif.h>
+#else
+#ifndef urcu_verif_point
+#define urcu_verif_point(id, ctx) do { } while (0)
+#endif
+#endif
 
 #ifdef __cplusplus
 extern "C" {
@@ -69,6 +76,7 @@ static inline void _cds_wfq_enqueue(struct cds_wfq_queue *q,
 	 */
 	cmm_emit_legacy_smp_mb();
 	old_tail = uatomic_xchg_mo(&q->tail, &node->next, CMM_SEQ_CST);
+	urcu_verif_point(URCU_VP_WFQ_ENQ_MID, q);
 	/*
 	 * At this point, dequeuers see a NULL old_tail->next, which indicates
 	 * that the queue is being appended to. The following store will append
@@ -130,6 +138,7 @@ ___cds_wfq_dequeue_blocking(struct cds_wfq_queue *q)
 	 * Requeue dummy node if we just dequeued it.
 	 */
 	if (node == &q->dummy) {
+		urcu_verif_point(URCU_VP_WFQ_DEQ_DUMMY, q);
 		_cds_wfq_node_init(node);
 		_cds_wfq_enqueue(q, node);
 		return ___cds_wfq_dequeue_blocking(q);
